@@ -34,6 +34,20 @@ elif cmd == "fixed":
         json.dump(r, open(dst, "w"), indent=1)
         entry["regression_case"] = dst
     d["findings"].append(entry)
+elif cmd == "merge":
+    # kf.py merge: move every entry of known_findings.d/*.json into the main file
+    import glob
+    MAIN = "/verif/known_findings.json"
+    main = json.load(open(MAIN))
+    for path in sorted(glob.glob("/verif/known_findings.d/*.json")):
+        doc = json.load(open(path))
+        for f in doc.get("findings", []):
+            if f not in main["findings"]:
+                main["findings"].append(f)
+        os.remove(path)
+    json.dump(main, open(MAIN, "w"), indent=1)
+    print("merged;", len(main["findings"]), "entries")
+    sys.exit(0)
 elif cmd == "tofixed":
     # kf.py tofixed <id> <commit> ["<what override>"]: known entry (main file or a fragment) -> fixed entry in the main file
     import glob
